@@ -27,6 +27,8 @@ type vestMachine struct {
 	acceptedSend, withdrawAfterLockEnd, rejectedAfterImplicitWithdraw, rejected int
 	exactLockEnd, maturedAndLocked, multiMaturePaid, fracFree, exactRemainder   int
 	restartMixedUnits, denomProposals, upperSpelled, genesisPools               int
+	sentToRecorded                                                              int
+	recordedAbsent                                                              []sdk.AccAddress
 	created                                                                     []sdk.AccAddress // vesting accounts created so far
 }
 
@@ -374,6 +376,11 @@ func (m *vestMachine) actSend() {
 		to = owner
 	case toKind == 3:
 		to = ModuleAddr("fee_collector")
+	case toKind == 4 && len(m.recordedAbsent) > 0:
+		// an address the genesis file records as a vesting account although no account exists there
+		to = m.recordedAbsent[0]
+		m.recordedAbsent = m.recordedAbsent[1:]
+		m.sentToRecorded++
 	default:
 		to = m.v.NextFresh()
 	}
@@ -643,6 +650,13 @@ func (m *vestMachine) seedGenesisPools() {
 			total = total.Add(amt)
 		}
 		gs.AccountVestingPools = append(gs.AccountVestingPools, rec)
+	}
+	// the genesis file may also record addresses at which no account exists yet
+	for i := 0; i < rapid.IntRange(0, 2).Draw(t, "genesisRecordedAbsent"); i++ {
+		a := m.v.NextFresh()
+		gs.VestingAccountTraces = append(gs.VestingAccountTraces, vestingtypes.VestingAccountTrace{Id: gs.VestingAccountTraceCount, Address: a.String(), Genesis: rapid.Bool().Draw(t, fmt.Sprintf("recordedAbsent%d_genesis", i))})
+		gs.VestingAccountTraceCount++
+		m.recordedAbsent = append(m.recordedAbsent, a)
 	}
 	if err := gs.Validate(); err != nil {
 		m.fail("harness: generated vesting genesis does not validate: %v", err)
